@@ -100,6 +100,18 @@ def proj_pkt(reply):
     return reply if reply.startswith("[0") else klass(reply)
 
 
+def proj_withpes(reply):
+    """WithPES then decode: only what the end-to-end clause determines (prefix, id, HasPTS, PTS, HasDTS; PESHeader class)"""
+    v = parse_val(reply)
+    if not isinstance(v, list) or not v or v[0] != 0:
+        return ("class", klass(reply))
+    pkt2, hdr, dec = v[1]
+    if dec[0] != 0:
+        return ("hdr", hdr[0], "dec-class", dec[0])
+    g = dec[1]
+    return ("hdr", hdr[0], g[0], g[1], g[3], g[4] if g[3] else None, g[5])
+
+
 def proj_class(reply):
     return klass(reply)
 
@@ -239,6 +251,25 @@ def gen(rng, tier):
         r2 = dict(r, pts=v1, dts=v2)
         EXPECT[line] = (b2, expected_view(r2))
         out.append(Case(line, kind="insert-then-decode", theorem="C11_pes_pts_dts_readback", proj=proj_put))
+    # 4b. the library's own builder packet.WithPES, then packet.PESHeader / NewPESHeader (end to end through the library)
+    afs = [None] + list(range(0, 256)) if tier == "thorough" else [None, 0, 1, 2, 7, 100, 168, 169, 170, 171, 174, 175, 179, 180, 182, 183, 184, 255]
+    for i, af in enumerate(afs * (1 if tier == "thorough" else 4)):
+        pk = bytearray(rng.randrange(256) for _ in range(188)); pk[0] = 0x47
+        if rng.random() < 0.3:
+            pk = bytearray(188); pk[0] = 0x47; pk[1] = 0x41
+        if af is None:
+            pk[3] &= 0xdf
+            start = 4
+        else:
+            pk[3] |= 0x20; pk[4] = af
+            start = 5 + af
+        pts = TS_GRID[i % len(TS_GRID)] if i % 4 else rng.randrange(M33)
+        line = "pes.withpes %s %d" % (hx(pk), pts)
+        if start + 14 <= 188:
+            EXPECT[line] = ("hdr", 0 if pk[1] & 0x40 else 1, 1, 184, 1, pts, 0)
+            out.append(Case(line, kind="withpes-readback", theorem="C11_with_pes_readback", proj=proj_withpes))
+        else:
+            out.append(Case(line, kind="withpes-no-room", decides=False, nontrivial=False, proj=proj_class, theorem="C11_with_pes_readback"))
     # 5. malformed stream (C05): outcome class only
     n = 0
     for r in recs[:: (97 if tier == "quick" else 11)]:
@@ -309,7 +340,9 @@ def case_of_line(line, kind):
     op = line.split(" ")[0]
     if kind.startswith("malformed") or kind.startswith("aligned-pusi-truncated") or kind == "aligned-af-lengths":
         return Case(line, kind=kind, decides=False, proj=proj_class if kind.startswith("malformed") else None)
-    proj = {"pes.new": proj_new, "pes.pkt": proj_pkt, "pes.put": proj_put}.get(op)
+    if kind == "withpes-no-room":
+        return Case(line, kind=kind, decides=False, proj=proj_class)
+    proj = {"pes.new": proj_new, "pes.pkt": proj_pkt, "pes.put": proj_put, "pes.withpes": proj_withpes}.get(op)
     return Case(line, kind=kind, proj=proj)
 
 
